@@ -35,3 +35,9 @@ package client
 //@   assert before call#1 NewNormalNil: arg0 == field.Kind
 //@   assert before call#2 NewNormalNil: arg0 == field.Kind
 //@   tags C13
+//@
+//@ // ===== C13: a date-time that arrives as a time.Time is taken as it is - the same instant written as text
+//@ // and parsed keeps its zone as well, so both routes give the same normal value and the same identifier
+//@ func getDateTime -> (r, err)
+//@   ensures hastype(v, time.Time) ==> r == as(v, time.Time) && err == nil
+//@   tags C13
